@@ -306,7 +306,7 @@ PROPS = {
         assumptions=COMMON_ASSUMPTIONS + ["a burst is judged only if it finished within 0.5 s of real time (otherwise a refill is legitimate)"],
         quick=plans(dict(build="dbg", nshards=16, parallel=4), dict(build="miri", nshards=4, timeout=900)),
         thorough=plans(dict(build="dbg", nshards=16, parallel=4), dict(build="rel", nshards=16, parallel=4),
-                       dict(build="tsan", nshards=8, parallel=2, scale=0.2), dict(build="miri", nshards=16, timeout=3000, miriflags="-Zmiri-many-seeds=0..8")),
+                       dict(build="tsan", nshards=8, parallel=2, scale=0.1), dict(build="miri", nshards=16, timeout=3000, miriflags="-Zmiri-many-seeds=0..8")),
         min_evaluations=300,
     ),
     "C29": dict(
